@@ -240,6 +240,8 @@ def onpolicy_cases(chk, rng, n):
                                                                                                            "resets": n_resets, "expected_resets": k})
         else:
             N, T = int(rng.integers(1, 4)), int(rng.choice([1, 3, 5]))
+            if N * T < 2:
+                T = 3          # a rollout of a single sample is rejected loudly by mse_value_loss (batch-size-1 reading of C12)
             scripts = [[(int(rng.choice([1, 2, 3, 5])), str(rng.choice(["term", "trunc"]))) for _ in range(3)] for _ in range(N)]
             envs = gym.vector.SyncVectorEnv([(lambda s=scripts[j], j=j: ScriptEnv(s, env_id=j, discrete=2, reward_scale=0.25)) for j in range(N)])
             case = {"routine": "train_a2c", "scripts": scripts, "total_timesteps": total, "steps_per_update": T, "n_envs": N}
